@@ -81,7 +81,7 @@ impl AtomicU8 {
     /// LOCKED_STARVATION, so when its own LOCKED -> LOCKED_STARVATION exchange fails the value it sees is final.
     #[verifier::external_body]
     pub fn compare_exchange(&self, current: u8, new: u8, success: Ordering, failure: Ordering) -> (r: Result<u8, u8>)
-        requires /*@tag:O-publish-release C04 C17*/ new < 2 ==> is_release(success),
+        requires /*@tag:O-publish-release C04 C17 C03 C18*/ new < 2 ==> is_release(success),
         ensures
             r matches Err(v) ==> self.observed(v) && v != current && (is_acquire(failure) ==> acq_synced())
                 && (current == 2 && new == 3 ==> v < 2),
@@ -94,7 +94,7 @@ impl AtomicU8 {
     /// a store to the signal state: publishing a final state (UNLOCKED / TERMINATED) must be a release
     #[verifier::external_body]
     pub fn store(&self, v: u8, o: Ordering)
-        requires /*@tag:O-publish-release C04 C17*/ v < 2 ==> is_release(o),
+        requires /*@tag:O-publish-release C04 C17 C03 C18*/ v < 2 ==> is_release(o),
         ensures self.stored(v, o),
     { unimplemented!() }
 }
@@ -183,6 +183,8 @@ pub assume_specification [std::thread::Thread::unpark] (_0: &std::thread::Thread
 pub assume_specification<T> [core::mem::drop] (_0: T);
 pub assume_specification [core::task::Waker::wake] (_0: core::task::Waker) ensures woken(_0);
 pub assume_specification [core::task::Waker::wake_by_ref] (_0: &core::task::Waker) ensures woken(*_0);
+/// the raw data pointer of a waker: nothing is known about it (comparing two of them does not decide `will_wake`)
+pub assume_specification [core::task::Waker::data] (_0: &core::task::Waker) -> (r: *const ());
 /// T10: std::thread::current / park (trusted: return, touch nothing the contracts speak about)
 pub assume_specification [std::thread::current] () -> std::thread::Thread;
 pub assume_specification [std::thread::park] ();
